@@ -29,7 +29,8 @@
           `absent_property_read/_write`, `not_an_array_read/_write`,
           `invalid_array_index_read/_write`, `write_access_denied`,
           `write_access_denied_custom`, `castOut_error_is_reject`, `ladder_error`
-          (forward direction: the condition implies exactly that refusal)
+          (forward direction: the condition implies exactly that refusal);
+          `unknown_object_write_iff` (both directions for unknown-object)
   * "Array properties answer index 0 with their length, indexes 1..n with the
     elements and anything else with an invalid-array-index error"
         → `array_index_classes`, `array_index_classes_propertyList`
@@ -48,7 +49,8 @@
   Partial (see notes/C15.md): Python-level type checks are modelled by datatype
   tags; decoding of constructed values is C03's codec (its outcome is an input:
   `Wire.dec`); custom property classes are modelled one by one; the converse
-  directions of error_matches ("only under these conditions") are not stated;
+  directions of error_matches ("only under these conditions") are stated for
+  unknown-object on writes only (`unknown_object_write_iff`);
   vendor extensions are out of scope.
 -/
 import BacVerif.Model.Object
@@ -2101,6 +2103,252 @@ theorem mkObject_ids (ty : Nat) (props : List PropDesc) (cmd : Option Cmd) (init
   simp only [Function.comp]
   unfold initSlot; split <;> (try split) <;> rfl
 
+
+/-! ## error_matches, converse direction for unknown-object -/
+
+/-- refusals that say "the object exists" -/
+def objectKnown (e : Refusal) : Prop := e ≠ .unknownObject
+
+theorem arrayGet_known (its : List Item) (i : Nat) (e : Refusal) (h : arrayGet its i = .error e) :
+    objectKnown e := by
+  unfold arrayGet at h
+  by_cases h1 : i > its.length
+  · simp [h1] at h; subst h; simp [objectKnown]
+  · by_cases h2 : i = 0
+    · simp [h2] at h
+    · simp only [h1, h2, ↓reduceIte] at h
+      split at h
+      · simp at h
+      · simp at h; subst h; simp [objectKnown]
+
+theorem propListRead_known (o : Object) (idx : Option Nat) (e : Refusal)
+    (h : propListRead o idx = .error e) : objectKnown e := by
+  unfold propListRead at h
+  cases idx with
+  | none => simp at h
+  | some i =>
+    simp only at h
+    by_cases h2 : i = 0
+    · simp [h2] at h
+    · simp only [h2, ↓reduceIte] at h
+      split at h
+      · simp at h; subst h; simp [objectKnown]
+      · split at h
+        · simp at h
+        · simp at h; subst h; simp [objectKnown]
+
+theorem stdRead_known (s : Slot) (idx : Option Nat) (e : Refusal) (h : stdRead s idx = .error e) :
+    objectKnown e := by
+  unfold stdRead at h
+  cases idx with
+  | none => simp only at h; split at h <;> simp at h
+  | some i =>
+    simp only at h
+    split at h
+    · simp at h; subst h; simp [objectKnown]
+    · split at h
+      · simp at h
+      · exact arrayGet_known _ _ _ h
+      · simp at h; subst h; simp [objectKnown]
+
+theorem propRead_known (o : Object) (s : Slot) (idx : Option Nat) (e : Refusal)
+    (h : propRead o s idx = .error e) : objectKnown e := by
+  unfold propRead at h
+  split at h
+  · exact propListRead_known o idx e h
+  · cases idx with
+    | none => simp at h
+    | some i => simp at h; subst h; simp [objectKnown]
+  · exact stdRead_known s idx e h
+
+theorem map_err {α β : Type} {f : α → β} {x : Except Refusal α} {e : Refusal}
+    (h : x.map f = .error e) : x = .error e := by
+  cases x with
+  | error r => simpa [Except.map] using h
+  | ok nv => simp [Except.map] at h
+
+theorem arraySet_known (its : List Item) (fixed : Option Nat) (dflt : Item) (i : Nat) (v : WVal) (e : Refusal)
+    (h : arraySet its fixed dflt i v = .error e) : objectKnown e := by
+  unfold arraySet at h
+  by_cases h1 : i > its.length
+  · simp [h1] at h; subst h; simp [objectKnown]
+  · by_cases h2 : i = 0
+    · subst h2
+      simp only [Nat.not_lt_zero, ↓reduceIte] at h
+      split at h
+      · split at h
+        · simp at h; subst h; simp [objectKnown]
+        · split at h
+          · split at h
+            · simp at h
+            · simp at h; subst h; simp [objectKnown]
+          · simp at h
+      · simp at h; subst h; simp [objectKnown]
+    · simp only [h1, h2, ↓reduceIte] at h
+      split at h
+      · simp at h
+      · simp at h; subst h; simp [objectKnown]
+
+theorem assign_known (dt : DT) (old : PVal) (v : WVal) (idx : Option Nat) (e : Refusal)
+    (h : assign dt old v idx = .error e) : objectKnown e := by
+  unfold assign at h
+  split at h
+  · split at h
+    · split at h
+      · simp at h; subst h; simp [objectKnown]
+      · exact arraySet_known _ _ _ _ _ _ (map_err h)
+      · simp at h; subst h; simp [objectKnown]
+    · simp at h; subst h; simp [objectKnown]
+  · split at h
+    · simp at h
+    · split at h
+      · split at h
+        · simp at h
+        · simp at h; subst h; simp [objectKnown]
+      · simp at h
+    · simp at h
+    · simp at h; subst h; simp [objectKnown]
+
+theorem stdWrite_known (s : Slot) (v : WVal) (idx : Option Nat) (e : Refusal)
+    (h : stdWrite s v idx = .error e) : objectKnown e := by
+  unfold stdWrite at h
+  split at h
+  · simp at h; subst h; simp [objectKnown]
+  · split at h
+    · rename_i r hl
+      simp at h; subst h
+      rcases ladder_error _ _ _ _ hl with h' | h' <;> (subst h'; simp [objectKnown, invalidDatatype])
+    · exact assign_known _ _ _ _ _ h
+
+theorem propWrite_known (d : Device) (o : Object) (s : Slot) (v : WVal) (idx : Option Nat) (e : Refusal)
+    (h : propWrite d o s v idx = .error e) : objectKnown e := by
+  unfold propWrite at h
+  split at h
+  · simp at h; subst h; simp [objectKnown]
+  · simp at h; subst h; simp [objectKnown]
+  · split at h
+    · simp at h; subst h; simp [objectKnown]
+    · split at h
+      · split at h
+        · split at h
+          · exact stdWrite_known _ _ _ _ (map_err h)
+          · simp at h; subst h; simp [objectKnown]
+        · simp at h; subst h; simp [objectKnown]
+      · simp at h; subst h; simp [objectKnown]
+  · split at h
+    · split at h
+      · simp at h
+      · split at h
+        · simp at h; subst h; simp [objectKnown]
+        · exact stdWrite_known _ _ _ _ (map_err h)
+    · exact stdWrite_known _ _ _ _ (map_err h)
+  · exact stdWrite_known _ _ _ _ (map_err h)
+
+theorem objWritePlain_known (d : Device) (o : Object) (pid : Nat) (v : WVal) (idx : Option Nat) (e : Refusal)
+    (h : (objWritePlain d o pid v idx).2 = .error e) : objectKnown e := by
+  unfold objWritePlain at h
+  split at h
+  · simp at h; subst h; simp [objectKnown]
+  · split at h
+    · rename_i r hr; simp at h; subst h; exact propWrite_known _ _ _ _ _ _ hr
+    · simp at h
+    · simp at h
+
+theorem cmdSettle_known (d : Device) (o1 : Object) (c : Cmd) (e : Refusal)
+    (h : (cmdSettle d o1 c).2 = .error e) : objectKnown e := by
+  unfold cmdSettle at h
+  split at h
+  · split at h
+    · simp only at h
+      split at h
+      · simp at h
+      · split at h
+        · exact objWritePlain_known _ _ _ _ _ _ h
+        · simp at h; subst h; simp [objectKnown]
+    · simp at h; subst h; simp [objectKnown]
+  · simp at h; subst h; simp [objectKnown]
+
+theorem cmdSlotWrite_known (d : Device) (o : Object) (c : Cmd) (v : WVal) (i : Int) (e : Refusal)
+    (h : (cmdSlotWrite d o c v i).2 = .error e) : objectKnown e := by
+  unfold cmdSlotWrite at h
+  split at h
+  · simp at h; subst h; simp [objectKnown]
+  · split at h
+    · simp at h; subst h; simp [objectKnown]
+    · split at h
+      · split at h
+        · simp only at h
+          split at h
+          · rename_i r hr
+            simp at h; subst h
+            repeat' split at hr
+            all_goals first
+              | (simp at hr; subst hr; simp [objectKnown, invalidDatatype])
+              | simp at hr
+          · exact cmdSettle_known _ _ _ _ h
+        · simp at h; subst h; simp [objectKnown]
+      · simp at h; subst h; simp [objectKnown]
+
+theorem objWrite_known (d : Device) (o : Object) (pid : Nat) (v : WVal) (idx : Option Nat)
+    (prio : Option Int) (e : Refusal) (h : (objWrite d o pid v idx prio).2 = .error e) :
+    objectKnown e := by
+  unfold objWrite at h
+  split at h
+  · rename_i c _
+    unfold objWriteCmd at h
+    split at h
+    · exact cmdSlotWrite_known _ _ _ _ _ _ h
+    · split at h
+      · split at h
+        · unfold cmdWholeWrite at h
+          split at h
+          · rename_i o1 r heq
+            simp at h; subst h
+            have : (objWritePlain d o c.pa v none).2 = .error r := by rw [heq]
+            exact objWritePlain_known _ _ _ _ _ _ this
+          · exact cmdSettle_known _ _ _ _ h
+        · exact cmdSlotWrite_known _ _ _ _ _ _ h
+      · exact objWritePlain_known _ _ _ _ _ _ h
+  · exact objWritePlain_known _ _ _ _ _ _ h
+
+/-- **error_matches, converse for unknown-object (writes)**: WriteProperty answers
+    Error(object, unknown-object) exactly when the device has no object with
+    that identifier — no other path of the handler produces this error. -/
+theorem unknown_object_write_iff (d : Device) (r : WriteReq) :
+    (writeService d r).2 = .error .unknownObject ↔ findObj r.oid d.objs = none := by
+  constructor
+  · intro h
+    cases hobj : findObj r.oid d.objs with
+    | none => rfl
+    | some o =>
+      exfalso
+      unfold writeService at h
+      simp only [hobj] at h
+      cases hpre : objRead o r.pid r.idx with
+      | error e' =>
+        simp [hpre] at h
+        unfold objRead at hpre
+        split at hpre
+        · simp at hpre; subst hpre; simp at h
+        · exact propRead_known _ _ _ _ hpre h
+      | ok rv0 =>
+        cases rv0 with
+        | none => simp [hpre] at h
+        | whole _ | len _ | elem _ =>
+          simp only [hpre] at h
+          cases hs : findSlot r.pid o.props with
+          | none => simp [hs] at h
+          | some s =>
+            simp only [hs] at h
+            cases hc : castOut s.d.dt r.idx r.value with
+            | error e' =>
+              simp [hc] at h
+              obtain ⟨n, hn⟩ := castOut_error_is_reject _ _ _ _ hc
+              subst hn; simp at h
+            | ok v =>
+              simp only [hc] at h
+              exact objWrite_known d o r.pid v r.idx r.prio _ h rfl
+  · intro h; rw [unknown_object_write d r h]
 
 /-! ## non-vacuity: concrete instances that meet the hypotheses
 
